@@ -350,6 +350,28 @@ def oracle(c):
         return None
     t = {"".join(str(x) for x in key): v for key, v in c["table"]}
     key = "".join(str(x) for x in c["n"])
+    if (len(t) + sum(c["n"])) % 3 == 0:
+        # the caller edits ITS table in place between lookups (same size: an entry changed, or one key replaced by
+        # another — what table_walk_through does to it): every lookup answers from the table as it is now
+        live = tr_mapping(c, dict(t))
+        for step in range(3):
+            now = dict(live)
+            try:
+                got = cpl.table_rule(np.array(c["n"]), live)
+                if key not in now or now[key] != got:
+                    return "lookup %d on a table edited in place: table_rule returned %s for %s, the table says %s" % (step + 1, got, key, now.get(key, "absent"))
+            except ValueError:
+                if key in now:
+                    return "lookup %d on a table edited in place: ValueError although %s is in the table" % (step + 1, key)
+            if key in live and step == 0:
+                live[key] = live[key] + 1                      # changed entry
+            elif key in live:
+                v = live.pop(key)                               # replaced by another key: same size, this one absent now
+                live[key + "9"] = v
+            else:
+                old = next(iter(live))
+                v = live.pop(old)
+                live[key] = v + 2                               # this one present now
     try:
         got = cpl.table_rule(np.array(c["n"]), tr_mapping(c, dict(t)))
         return None if key in t and t[key] == got else "table_rule returned %s for %s" % (got, key)
